@@ -152,6 +152,8 @@ Proof.
       intros H. injection H as <-. reflexivity.
     + destruct outs as [|o [|o2 rest]]; try discriminate. intros H. injection H as <-. reflexivity.
     + discriminate.
+    + destruct outs as [|o [|o2 rest]]; try discriminate. destruct (all_files _); [|discriminate].
+      intros H. injection H as <-. reflexivity.
   - discriminate.
   - destruct outs as [|o [|o2 rest]]; try discriminate. intros H. injection H as <-. reflexivity.
 Qed.
@@ -427,3 +429,10 @@ Proof.
     unfold run_action. destruct (gather_in _ _ _); [|exists 1; reflexivity].
     destruct (act _ _ _); [exists 0|exists 1]; reflexivity.
 Qed.
+
+(* ------------------------------------------------------------------------------------------ *)
+(* the tools loop of sourceHash ranges over AllTools() (Gen/EngineRecord.v, source_hash_tools = TAllTools): the tool outputs
+   that enter the source key are ALL tool outputs, those of dict-form (named) tools included.  Every theorem about
+   source_key goes through this lemma: it stops holding when the loop ranges over target.Tools. *)
+Lemma hashed_tool_paths_all r t : hashed_tool_paths r t = tool_paths r t.
+Proof. reflexivity. Qed.
